@@ -51,7 +51,9 @@ class C01Monitor(Monitor):
             kap, src = kappa_for(model, p)
             coef = model.matrixParameters.volume.Vm / pp.volume.Vm * kap
             N = Xs[p]
-            Rc = c['size'][p]
+            # class radii of the oracle are the mid-points of the class boundaries (independent of the model's cached centres;
+            # seeded change C02-d shifted PSDsize of appended classes and an oracle reading PSDsize saw nothing)
+            Rc = 0.5 * (c['bounds'][p][1:] + c['bounds'][p][:-1])
             if float(np.sum(N)) < minDens:
                 F[p] = 0.0
                 self.F_nodiff[p] = 0.0
@@ -128,7 +130,9 @@ class C02Monitor(Monitor):
         for p in range(nph):
             pp = model.precipitateParameters[p]
             N = Xs[p]
-            Rc = c['size'][p]
+            # class radii of the oracle are the mid-points of the class boundaries (independent of the model's cached centres;
+            # seeded change C02-d shifted PSDsize of appended classes and an oracle reading PSDsize saw nothing)
+            Rc = 0.5 * (c['bounds'][p][1:] + c['bounds'][p][:-1])
             kap, src = kappa_for(model, p)
             coef = model.matrixParameters.volume.Vm / pp.volume.Vm * kap
             # ---- (a) moments
